@@ -34,13 +34,7 @@ P = 'circus.process:Process.'
 
 
 def check(run, ctx):
-    r1(run, ctx)
-    r2(run, ctx)
-    r3(run, ctx)
-    r4(run, ctx)
-    r5(run, ctx)
-    r6(run, ctx)
-    r7(run, ctx)
+    run.each(ctx, [r1, r2, r3, r4, r5, r6, r7])
 
 
 def registrations(ctx, f):
@@ -184,7 +178,7 @@ def r2(run, ctx):
                       'result of an awaited kill_process', m, n.ast,
                       'a process is dropped from the table although it may still be alive: '
                       'it becomes untracked (no kill awaited, no dead-status test)')
-    run.count('R2', n_sites, 5, 'removal sites on Watcher.processes')
+    run.count('R2', n_sites, 3, 'removal sites on Watcher.processes')
     # reap_process: the pop is followed by the wait loop on every path
     f = ctx.fn(W + 'reap_process')
     cfg = ctx.cfg(f)
